@@ -274,6 +274,12 @@ class Evaluator:
             out = r.run()
         except (scansim.Unsupported, scansim.OOB, TypeError, RecursionError):
             return None
+        if isinstance(out, tuple) and out[0] == 'P' and out[1][0] in ('S', 'L') and all(isinstance(x, int) for x in r.bufs[out[1]]):
+            # pointer into a string literal: the literal from that position up to its terminator
+            rest = r.bufs[out[1]][out[2]:]
+            if 0 in rest:
+                return StrVal([x & 255 for x in rest[:rest.index(0)]])
+            return None
         if not isinstance(out, int):
             return None
         rt = T(g, g.get('ret'))
